@@ -556,8 +556,8 @@ def grammars_for(ctx):
     if extra.exists():
         for f in sorted(extra.glob("*.json")):
             gs.append(Gr.from_json(json.loads(f.read_text())))
-    nrand = 700 if ctx.thorough else 150
-    npert = 300 if ctx.thorough else 80
+    nrand = 500 if ctx.thorough else 100
+    npert = 250 if ctx.thorough else 60
     seen = {g.key() for g in gs}
     for _ in range(nrand):
         g = random_grammar(rng)
